@@ -7,6 +7,7 @@
     LemmasTaggedLe   the checked evaluator is Memo.lean's evaluator, except that it may give up
     LemmasTaggedTotal  same-fuel completeness of Memo.lean's evaluator
     LemmasTaggedExact  same-fuel completeness of the exact evaluator (Checked.lean, strict = false)
+    LemmasRank       totality of the evaluator on ranked graphs (Rank.lean), explicit fuel
 -/
 import SuppModel.Flow.Memo
 import SuppModel.Flow.Checked
@@ -17,3 +18,4 @@ import SuppModel.Flow.LemmasTaggedSim
 import SuppModel.Flow.LemmasTaggedLe
 import SuppModel.Flow.LemmasTaggedTotal
 import SuppModel.Flow.LemmasTaggedExact
+import SuppModel.Flow.LemmasRank
